@@ -1,6 +1,7 @@
 package main
 
 import (
+	"encoding/json"
 	"flag"
 	"fmt"
 	"math/rand"
@@ -98,7 +99,17 @@ func cmdScan(args []string) {
 	wantDiags := fs.Bool("diags", false, "emit every diagnostic")
 	only := fs.String("only", "", "comma separated checker names (default all)")
 	hangSecs := fs.Int("hang", 20, "seconds before a single Check is reported as suspect")
+	goVer := fs.String("gover", "", "target Go version given to Context.SetGoVersion")
+	pvFile := fs.String("pvfile", "", "JSON {vector name: {checker: {param: value}}} of explicit parameter vectors usable in -pv")
 	fs.Parse(args)
+	explicit := map[string]map[string]map[string]interface{}{}
+	if *pvFile != "" {
+		b, err := os.ReadFile(*pvFile)
+		if err != nil || json.Unmarshal(b, &explicit) != nil {
+			fmt.Fprintln(os.Stderr, "HARNESS: bad -pvfile")
+			os.Exit(3)
+		}
+	}
 
 	core.Init()
 	out := core.NewOut(*outPath)
@@ -150,8 +161,25 @@ func cmdScan(args []string) {
 	for _, pv := range strings.Split(*pvs, ",") {
 		core.ParamRestore(defaults)
 		over := paramVector(pv, defaults)
+		if ex, ok := explicit[pv]; ok {
+			over = map[string]map[string]interface{}{}
+			for ck, ps := range ex {
+				over[ck] = map[string]interface{}{}
+				for k, v := range ps {
+					// JSON numbers arrive as float64; parameters are int, bool or string
+					if f, isF := v.(float64); isF {
+						over[ck][k] = int(f)
+					} else {
+						over[ck][k] = v
+					}
+				}
+			}
+		}
 		core.SetParams(over)
 		ctx := linter.NewContext(fset, nil)
+		if *goVer != "" {
+			ctx.SetGoVersion(*goVer)
+		}
 		var set []*linter.Checker
 		for _, info := range infos {
 			if len(onlySet) > 0 && !onlySet[info.Name] {
